@@ -150,6 +150,9 @@ SIMPLE = [
     # the annotation of a local is never evaluated by Python: evaluating it here would raise AttributeError
     S("ann-raises", "{n1}: GNONE.nope = E({e1}, {p})", cur="n1", special=True),
     S("declare-ann-raises", ["{n1}: GNONE.nope", "{n2} = E({e1}, {n1})"], cur="n2", special=True),
+    # the qualified names of what f defines (f itself is defined in a factory)
+    S("nested-qualname", ["def {n1}(u):", "    return u", "class {N2}:", "    pass",
+                          "{n3} = E({e1}, ({n1}.__qualname__, {N2}.__qualname__, (lambda: 0).__qualname__))"], cur=None, flags=["closure"], special=True),
     S("mangled-read", "{n1} = E({e1}, K.__hid + {p})", cur="n1", flags=["inclass"], special=True),
     S("mangled-read-nested", "{n1} = E({e1}, K.__hid + {p})", cur="n1", flags=["inclass", "nested"], special=True),
     S("weird-eq", "{n1} = NOEQ(E({e1}, {p}))", special=True),
@@ -203,7 +206,7 @@ CORE3 = frozenset({"assign", "chain", "aug", "unpack-tuple", "unpack-star", "att
                    "yield-recv", "if", "if-else", "for", "for-else", "while", "try-except", "try-finally", "with",
                    "break", "continue", "del"})
 # the `odd` program set: every program contains at least one of ODD, the rest comes from ODD_BASE
-ODD = frozenset({"none-global-read", "weird-eq", "multiline-str", "mangled-read", "mangled-read-nested", "ann-raises", "sub-index-walrus", "default-walrus",
+ODD = frozenset({"none-global-read", "weird-eq", "multiline-str", "mangled-read", "mangled-read-nested", "ann-raises", "nested-qualname", "sub-index-walrus", "default-walrus",
                  "class-base-walrus", "lambda-walrus", "lambda-yield", "with-two-dep", "return-yield", "arg-yield", "assert-yield", "sub-index-yield",
                  "default-yield", "ann-yield", "attr-yield", "for-list-target", "with-list-target", "for-yield-iter",
                  "while-yield-test", "if-yield-test", "with-yield-item"})
